@@ -73,6 +73,7 @@ class Method(Fn):
                 if ta.startswith("opt:") or ta == "tzinfo":
                     return ("(negb (opt_is_some %s))" if op == "Is" else "(opt_is_some %s)") % a, "bool"
                 fail(n, "is None on a non-optional")
+            mark = len(self.pre)
             a, ta = self.e(n.left)
             b, tb = self.e(n.comparators[0])
             if ta == tb == "jobtype" and op in ("Eq", "Is"):
@@ -85,7 +86,8 @@ class Method(Fn):
                 return v, "bool"
             if ta == tb == "int" and op in ("Lt", "LtE", "Eq", "Gt", "GtE"):
                 return "(%s %s %s)" % (a, {"Lt": "<?", "LtE": "<=?", "Eq": "=?", "Gt": ">?", "GtE": ">=?"}[op], b), "bool"
-            fail(n, "compare typing %s %s %s" % (ta, op, tb))
+            del self.pre[mark:]
+            return super().e(n)
         if isinstance(n, ast.BoolOp) and isinstance(n.op, ast.And):
             # short-circuit: a monadic operand is only evaluated when everything before it is true
             parts = []
